@@ -1,4 +1,4 @@
-import GB.C13.Proofs2
+import GB.C13.Proofs3
 import GB.Generated.Facts
 import GB.C09.Props
 /-
@@ -853,3 +853,94 @@ theorem C13_facts_close_code :
     GB.Generated.websocketErrorReturns = [("err==nil", "1000,\"\""), ("", "code,reason")] ∧
     GB.Generated.websocketErrorCodeAssigns =
       [("", "1001"), ("errors.Is(err,errExpectedBinary)||errors.Is(err,errExpectedText)", "1003")] := by decide
+
+/-! ## wave 7: `strings.ToValidUTF8` as coded (two loops and the fast path) -/
+
+/-- `strings.ToValidUTF8(s, "�")` modelled statement by statement — the first loop scanning for the first byte
+    that starts no well-formed rune (`firstInvalid`), the fast path `if b.Cap() == 0 { return s }`, the builder
+    pre-filled with `s[:i]`, the main loop over `s[i:]` with its `c < RuneSelf` shortcut (`toValidMain`) — computes
+    the same function as the one-loop model `toValidUTF8` used everywhere else in this slice. -/
+theorem C13_toValidUTF8_fastpath_eq (s : Bytes) : toValidUTF8Coded s = toValidUTF8 s := toValidUTF8Coded_eq s
+
+/-- the fast path is taken exactly for valid UTF-8 (and then returns its argument) -/
+theorem C13_toValidUTF8_fastpath_iff (s : Bytes) :
+    firstInvalid s.length s = none ↔ ValidUTF8 s = true :=
+  ⟨firstInvalid_none_valid _ s (Nat.le_refl _), valid_firstInvalid_none _ s⟩
+
+/-- on the slow path the scan stops at a byte that starts no well-formed rune, after a valid prefix that is copied
+    unchanged; the main loop starts there (so the output begins `s[:i] ++ "�"`). -/
+theorem C13_toValidUTF8_slowpath (s : Bytes) (i : Nat) (h : firstInvalid s.length s = some i) :
+    i < s.length ∧ ValidUTF8 (s.take i) = true ∧ runeLen (s.drop i) = none ∧
+      toValidUTF8 s = s.take i ++ replacementChar ++ toValidAux (s.length - i - 1) true (s.drop (i + 1)) := by
+  obtain ⟨h1, h2, h3, h4⟩ := firstInvalid_some_split _ s i (Nat.le_refl _) h
+  refine ⟨h1, h3, h2, ?_⟩
+  unfold toValidUTF8
+  rw [h4]
+  have hd : s.drop i = s[i] :: s.drop (i + 1) := (List.getElem_cons_drop h1).symm
+  rw [hd] at h2
+  obtain ⟨k, hk⟩ : ∃ k, s.length = k + 1 := ⟨s.length - 1, by omega⟩
+  rw [hd, hk]
+  simp only [toValidAux, h2, Bool.false_eq_true, ↓reduceIte, List.append_assoc]
+  congr 2
+  apply toValidAux_fuel <;> simp only [List.length_drop] <;> omega
+
+/-! ## wave 7: parameters and white space of well-formed header values never change `Bind`'s decision
+
+  `mime.ParseMediaType` is applied by `pickRequestMarshaler` to the Content-Type values ONLY; the Accept values are
+  looked up and compared with `"text/event-stream"` verbatim ("No need to parse the Accept header…"). So the
+  parameter-independence holds — and is proved — for the Content-Type side on the decidable class `wfMediaValue`
+  (where `mediaType` is `ParseMediaType`); for Accept the literal statement is FALSE in the code as written, see
+  `C13_bind_accept_verbatim_witness` (a well-formed `text/event-stream;q=1` does not negotiate SSE). -/
+
+/-- two requests that differ only in their Content-Type values, all of them in the well-formed class and with
+    pairwise the same media type (`type/subtype`, trimmed, lower-cased), get the same `Bind` result: the same
+    marshalers, the same SSE decision, the same refusal. Parameters, their order/quoting, OWS and letter case are
+    invisible. (The class hypothesis scopes the claim to where the model IS `mime.ParseMediaType`; inside the
+    model the equality holds for all values.) -/
+theorem C13_bind_ignores_parameters (ms : List Marshaler) (d : Marshaler) (r r' : BindReq)
+    (_hwf : ∀ v ∈ r.contentType ++ r'.contentType, wfMediaValue v = true)
+    (hct : r'.contentType.map mediaType = r.contentType.map mediaType)
+    (ha : r'.accept = r.accept) (hcs : r'.cs = r.cs) (hss : r'.ss = r.ss) :
+    C13.bind ms d r' = C13.bind ms d r := by
+  unfold C13.bind
+  rw [pickRequest_mediaType ms d _ _ hct, ha, hcs, hss]
+
+/-- …hence the whole HTTP outcome (status, Content-Type, framing of the body) -/
+theorem C13_http_outcome_ignores_parameters (ms : List Marshaler) (d : Marshaler) (r r' : BindReq)
+    (hwf : ∀ v ∈ r.contentType ++ r'.contentType, wfMediaValue v = true)
+    (hct : r'.contentType.map mediaType = r.contentType.map mediaType)
+    (ha : r'.accept = r.accept) (hcs : r'.cs = r.cs) (hss : r'.ss = r.ss)
+    (whole : Bool) (ps : List Bytes) (e : End) :
+    httpOutcome ms d r' whole ps e = httpOutcome ms d r whole ps e := by
+  unfold httpOutcome
+  rw [C13_bind_ignores_parameters ms d r r' hwf hct ha hcs hss, hcs, hss]
+
+/-- members of the class and their media types: ` Application/JSON ; charset="utf-8"; q=1 ;`, bare, no subtype;
+    non-members: duplicate key, missing value, space before `=`, bad token, `;` inside quotes (conservative) -/
+theorem C13_wfMediaValue_examples :
+    wfMediaValue ([32, 65, 112, 112, 108, 105, 99, 97, 116, 105, 111, 110, 47, 74, 83, 79, 78, 32, 59, 32, 99, 104, 97, 114, 115, 101, 116, 61, 34, 117, 116, 102, 45, 56, 34, 59, 32, 113, 61, 49, 32, 59] : Bytes) = true ∧
+    mediaType ([32, 65, 112, 112, 108, 105, 99, 97, 116, 105, 111, 110, 47, 74, 83, 79, 78, 32, 59, 32, 99, 104, 97, 114, 115, 101, 116, 61, 34, 117, 116, 102, 45, 56, 34, 59, 32, 113, 61, 49, 32, 59] : Bytes) = jsonMime ∧
+    wfMediaValue jsonMime = true ∧ mediaType jsonMime = jsonMime ∧
+    wfMediaValue ([116, 101, 120, 116, 47, 101, 118, 101, 110, 116, 45, 115, 116, 114, 101, 97, 109, 59, 113, 61, 49] : Bytes) = true ∧
+    mediaType ([116, 101, 120, 116, 47, 101, 118, 101, 110, 116, 45, 115, 116, 114, 101, 97, 109, 59, 113, 61, 49] : Bytes) = sseMime ∧
+    wfMediaValue ([102, 111, 114, 109, 45, 100, 97, 116, 97] : Bytes) = true ∧
+    wfMediaValue ([97, 47, 98, 59, 113, 61, 49, 59, 81, 61, 50] : Bytes) = false ∧
+    wfMediaValue ([97, 47, 98, 59, 113] : Bytes) = false ∧
+    wfMediaValue ([97, 47, 98, 59, 113, 32, 61, 49] : Bytes) = false ∧
+    wfMediaValue ([97, 32, 98, 47, 99] : Bytes) = false ∧
+    wfMediaValue ([97, 47, 98, 47, 99] : Bytes) = false ∧
+    wfMediaValue ([97, 47, 98, 59, 59, 113, 61, 49] : Bytes) = false ∧
+    wfMediaValue ([] : Bytes) = false := by decide
+
+/-- the Accept side is verbatim in the code (`t.mimeMarshalers[mt]`, `slices.Contains(accept, "text/event-stream")`):
+    a well-formed value with the SAME media type but a parameter changes the decision — SSE is not negotiated.
+    So "depends only on the media types of the Accept elements" does not hold for the code as written; this is the
+    documented behaviour the model and the harness (Accept menu incl. a quality list) agree on. -/
+theorem C13_bind_accept_verbatim_witness :
+    let j : Marshaler := { mime := jsonMime, binary := false, stream := true }
+    let v' : Bytes := ([116, 101, 120, 116, 47, 101, 118, 101, 110, 116, 45, 115, 116, 114, 101, 97, 109, 59, 113, 61, 49] : Bytes)
+    wfMediaValue sseMime = true ∧ wfMediaValue v' = true ∧ mediaType v' = mediaType sseMime ∧
+    (match C13.bind [j] j { accept := [sseMime], contentType := [], cs := false, ss := true } with
+      | .ok b => b.isSSE | .error _ => false) = true ∧
+    (match C13.bind [j] j { accept := [v'], contentType := [], cs := false, ss := true } with
+      | .ok b => b.isSSE | .error _ => true) = false := by decide
